@@ -14,6 +14,8 @@ for d in checks/*/; do
   id=$(basename "$d")
   RACE=""
   [ -f "$d/RACE" ] && RACE="-race"
-  go build $RACE -overlay build/ov/overlay.json -o build/bin/$id ./checks/$id || echo "setup: warning: $id did not build"
+  OV=build/ov/overlay.json
+  [ -f "$d/OSHOOK" ] && OV=build/ov/overlay_os.json
+  go build $RACE -overlay $OV -o build/bin/$id ./checks/$id || echo "setup: warning: $id did not build"
 done
 echo "setup done"
